@@ -182,6 +182,14 @@ def gen_annot_tree(rng, depth, dt, shape=None):
         if free and N >= 3 and rng.random() < 0.2:  # near-miss: same stop and step, different start (a non-square block)
             a, b = (int(x) for x in rng.choice(np.arange(0, N - 1), size=2, replace=False))
             sl = [{"s": [a, N, None]}, {"s": [b, N, None]}]
+        elif rng.random() < 0.15:
+            # near-miss: two different blocks of the same length far from the corner (both starts beyond the block length: a
+            # comparison of slices normalised against the wrong length would see them as equal)
+            N = 3 * n + int(rng.integers(1, 3))
+            inner = true_leaf(rng, N, dt, S.pick(rng, ["SelfAdjoint", "PSD", "Unitary"]))
+            a = int(rng.integers(n, N - n + 1))
+            b = int(S.pick(rng, [x for x in range(n, N - n + 1) if x != a] or [a - 1]))
+            sl = [{"s": [a, a + n, None]}, {"s": [b, b + n, None]}]
         elif rng.random() < 0.6:  # equal index sets
             s = S.slice_for(rng, N, n, unique=True)
             sl = [s, dict(s)]
